@@ -196,3 +196,58 @@ def param_sinks(fx, fn_def, arg_index, depth=2):
                 continue
         res.append(s)
     return res
+
+
+def value_sinks(fx, b, local, depth=2):
+    """sinks of a local of body b, looking through calls to crate-local functions that merely pass the value on (a
+    private helper between the construction of a value and the call that consumes it). Each sink carries `fn`, the
+    definition whose body contains it, and `via`, the helpers passed through."""
+    from mir import sinks
+    res = []
+    for s in sinks(b, local):
+        if s["k"] == "call" and depth > 0:
+            c = s["t"].get("resolved") or s["t"].get("callee")
+            g = fx.fns.get(c) if c else None
+            if g is not None and g["kind"] in ("fn", "assoc_fn") and not s["t"].get("trait_dyn"):
+                for s2 in param_sinks(fx, c, s["idx"] + 1, depth - 1):
+                    res.append(dict(s2, via=[c] + list(s2.get("via", []))))
+                continue
+        res.append(dict(s, fn=b.name, via=[]))
+    return res
+
+
+def wiring_fn(fx, name, pred, depth=2):
+    """the function that does the work of entry point `name`: `name` itself if its body contains a call matching pred,
+    otherwise the crate-local synchronous function it hands its own `self` to (spawn = self.spawn_owning().detach(),
+    spawn_owning = self.into_event_loop() ...), followed up to `depth` steps. None if not found."""
+    f = fx.fn(name)
+    for _ in range(depth + 1):
+        if f is None:
+            return None
+        b = Body(f)
+        if any(pred(t) for _, t in b.normal_calls()):
+            return f
+        nxt = None
+        for _bi, t in b.normal_calls():
+            g = fx.fn(t.get("resolved") or t.get("callee") or "")
+            if g is None or g["kind"] not in ("fn", "assoc_fn") or g.get("is_async") or not t["args"]:
+                continue
+            os_ = b.origins(t["args"][0])
+            if os_ and all(o.kind == "arg" and o.site == 1 and not o.proj for o in os_):
+                nxt = g
+                break
+        f = nxt
+    return None
+
+
+def with_forwarded(fx, f, depth=1):
+    """f plus the crate-local synchronous functions it calls (a closure whose body was moved into a named function):
+    [fn records], f first"""
+    out = [f]
+    if depth <= 0:
+        return out
+    for _bi, t in Body(f).normal_calls():
+        g = fx.fn(t.get("resolved") or t.get("callee") or "")
+        if g is not None and g["kind"] in ("fn", "assoc_fn") and not g.get("is_async") and g not in out:
+            out.extend(x for x in with_forwarded(fx, g, depth - 1) if x not in out)
+    return out
